@@ -50,6 +50,20 @@ print(json.dumps({"violates": before != after, "before": str(before), "after": s
 '''
 
 
+REPLAY_INDEP = r'''
+from guppylang.emulator.instance import EmulatorInstance
+class Stub:
+    def run_shots(self, **kw): return iter(())
+a = EmulatorInstance(_instance=Stub(), _n_qubits=2)
+b = EmulatorInstance(_instance=Stub(), _n_qubits=2)
+shared = a._options is b._options or a._options._simulator is b._options._simulator
+a1 = a.with_seed(1); seen = getattr(a1._options._simulator, "random_seed", None)
+b.with_seed(2)
+after = getattr(a1._options._simulator, "random_seed", None)
+print(json.dumps({"violates": bool(shared) or seen != after, "shared_objects": bool(shared), "seed_seen_by_first_before": seen, "after_seeding_the_other": after}))
+'''
+
+
 def snapshot(root):
     """{(oid, field) -> value} for every object reachable from root."""
     seen, out, todo = {}, {}, [root]
@@ -204,6 +218,28 @@ def run(chk):
         chk.prove_paths(f"{name}:two-derivations-do-not-share-a-simulator-object", e.explore(t2),
                         lambda p: z3.BoolVal(p.kind == "return" and p.value[0] is not p.value[1]), func=f"{MOD}:EmulatorInstance.{name}",
                         replay=lambda m, name=name: {"script": REPLAY, "input": {"first": name, "method": name, "then": "with_seed", "then_args": [99]}})
+
+    # ---- two configurations built independently (EmulatorInstance(_instance=.., _n_qubits=..) as
+    # EmulatorBuilder.build constructs them, defaults filled in) share no object but immutable
+    # scalars: otherwise seeding one re-seeds the other (with_seed writes to its simulator)
+    def t_indep(it):
+        m = e.module(MOD)
+        EI = it.lookup_global(m, "EmulatorInstance")
+        a = it.call(EI, [], {"_instance": SObj(ClassVal("SeleneInstance", builtin=True), {}), "_n_qubits": 2})
+        b = it.call(EI, [], {"_instance": SObj(ClassVal("SeleneInstance", builtin=True), {}), "_n_qubits": 2})
+        return a, b
+
+    def post_indep(p):
+        if p.kind != "return":
+            return z3.BoolVal(False)
+        a, b = p.value
+        _, oa = snapshot(a)
+        _, ob = snapshot(b)
+        shared = set(oa) & set(ob)
+        oa_, ob_ = a.fields["_options"], b.fields["_options"]
+        return z3.BoolVal(not shared and oa_ is not ob_ and oa_.fields["_simulator"] is not ob_.fields["_simulator"])
+    chk.prove_paths("EmulatorInstance():two-independently-built-configurations-share-no-mutable-object(options,simulator,runtime,error-model,hook)", e.explore(t_indep), post_indep,
+                    func=f"{MOD}:EmulatorInstance", replay=lambda m_: {"script": REPLAY_INDEP, "input": {}})
 
     # ---- _run_instance: every option reaches the keyword of the same meaning; self unchanged
     def t_run(it):
